@@ -77,7 +77,12 @@ def no_swallow_with_loop_killers(payloads):
     loop was killed by SystemExit / KeyboardInterrupt: then asyncio.run's own single cancellation is all that is
     left, and a payload that suppresses it keeps the loop alive. That is the payload's doing (asyncio: a
     cancellation must not be suppressed); such combinations are not generated."""
-    if any(loop_killer(p) for p in payloads):
+    # The same holds for a payload that is adopted while the runtime is already closing (its runner has
+    # finished closing, the loop is only waiting for asyncio.run's final one-shot cancellation): so a
+    # suppressing payload is only generated when every failure waits for the gate, i.e. happens after
+    # everything has started.
+    early = any(p.get("role") == "failing" and (p.get("callfail") or (p.get("script") or [[None]])[0][0] != "wait") for p in payloads)
+    if early or any(loop_killer(p) for p in payloads):
         for p in payloads:
             p.pop("swallow", None)
 
